@@ -761,6 +761,168 @@ fn read_only_race_cases() -> Vec<RCase> {
     v
 }
 
+/// A mutating call is cancelled (its task dropped) while a close is already queued behind it: the
+/// cancellation poisons the handle, so the queued close must not write.
+pub fn run_cancel_vs_queued_close(case: &RCase, ch: &mut Chooser, ctx: &mut CaseCtx) -> Result<(), String> {
+    install_clocks(1_700_000_000_000);
+    let rt = tokio::runtime::Builder::new_current_thread().enable_time().build().unwrap();
+    let local = tokio::task::LocalSet::new();
+    local.block_on(&rt, async {
+        let mem = Arc::new(InMemory::new());
+        let ctl = Ctl::new();
+        ctl.set_logging(true);
+        let hub = Hub::new();
+        let logged: Arc<dyn ObjectStore> = Arc::new(CtlStore::new(mem.clone(), ctl.clone()));
+        let store: Arc<dyn ObjectStore> = Arc::new(ParkStore::new(logged, hub.clone()));
+        let db = connect(store, false).await.map_err(|e| e.to_string())?;
+        let idx = crate::c05::idx_c05();
+        let col = open(&db, &idx).await.map_err(|e| e.to_string())?;
+        let mut pre = Model::new();
+        for n in 0..3u8 {
+            let s = DocSpec { name: n, age: n, score: 0, tags: vec![n % 3], opt: None, ukeys: vec![], attrs: vec![], body: vec![n % 5], emb: 0 };
+            let id = col.add(make_doc(&col, &s.fields())?).await.map_err(|e| e.to_string())?;
+            pre.insert(id, s.fields());
+        }
+        col.flush(anda_db::unix_ms()).await.map_err(|e| e.to_string())?;
+        hub.set_enabled(true);
+        let op = case.ops[0].clone();
+        let done = Arc::new(AtomicU64::new(0));
+        let op_ret: Arc<std::sync::Mutex<Option<Ret>>> = Arc::new(std::sync::Mutex::new(None));
+        let tr_ret: Arc<std::sync::Mutex<Option<Result<(), String>>>> = Arc::new(std::sync::Mutex::new(None));
+        let op_handle = {
+            let (col, hub2, done, op_ret, op) = (col.clone(), hub.clone(), done.clone(), op_ret.clone(), op.clone());
+            tokio::task::spawn_local(OP_ID.scope(0, async move {
+                hub2.park(vf_core::store::Op::Get, "start", Phase::Start).await;
+                let r = run_op(&col, &op).await;
+                *op_ret.lock().unwrap() = Some(r);
+                done.fetch_add(1, Ordering::SeqCst);
+            }))
+        };
+        let tr_handle = {
+            let (col, db, hub2, done, tr_ret, t) = (col.clone(), db.clone(), hub.clone(), done.clone(), tr_ret.clone(), case.transition);
+            tokio::task::spawn_local(OP_ID.scope(99, async move {
+                hub2.park(vf_core::store::Op::Get, "start", Phase::Start).await;
+                let r = match t {
+                    Transition::CollectionClose => col.close().await.map_err(|e| e.to_string()),
+                    Transition::CloseCollection => db.close_collection("docs").await.map_err(|e| e.to_string()),
+                    _ => db.close().await.map_err(|e| e.to_string()),
+                };
+                *tr_ret.lock().unwrap() = Some(r);
+                done.fetch_add(1, Ordering::SeqCst);
+            }))
+        };
+        let progress = {
+            let done = done.clone();
+            move || done.load(Ordering::SeqCst)
+        };
+        let mut aborted_at: Option<usize> = None;
+        let mut poisoned_at_abort = false;
+        let mut close_started = false;
+        let mut close_was_queued = false;
+        let mut steps = 0u64;
+        loop {
+            vf_core::sched::quiesce(&hub, &progress).await;
+            let p = hub.parked();
+            let op_finished = op_ret.lock().unwrap().is_some();
+            let expected_done = if aborted_at.is_some() && !op_finished { 1 } else { 2 };
+            if p.is_empty() {
+                if progress() >= expected_done {
+                    break;
+                }
+                hub.release_all(true);
+                op_handle.abort();
+                tr_handle.abort();
+                return Err("inconclusive: nothing is parked but tasks are unfinished".into());
+            }
+            // the op is in flight when it is parked inside a backend call
+            let op_inflight = p.iter().any(|x| x.task == 0 && x.phase != Phase::Start);
+            let can_abort = aborted_at.is_none() && op_inflight;
+            let nopt = p.len() + if can_abort { 1 } else { 0 };
+            let c = ch.choose(nopt);
+            if c == p.len() {
+                // drop the mutating future right where it is
+                op_handle.abort();
+                // its parked call never returns to it
+                for x in p.iter().filter(|x| x.task == 0) {
+                    hub.release(x.id, false);
+                }
+                vf_core::sched::quiesce(&hub, &progress).await;
+                aborted_at = Some(ctl.log_len());
+                poisoned_at_abort = col.is_poisoned();
+                close_was_queued = close_started && tr_ret.lock().unwrap().is_none();
+            } else {
+                if p[c].task == 99 && p[c].phase == Phase::Start {
+                    close_started = true;
+                }
+                hub.release(p[c].id, true);
+            }
+            steps += 1;
+            if steps > 4000 {
+                hub.release_all(true);
+                return Err("inconclusive: schedule did not terminate".into());
+            }
+        }
+        let _ = tr_handle.await;
+        hub.set_enabled(false);
+        let Some(mark) = aborted_at else {
+            ctx.label("op_never_cancelled");
+            return Ok(());
+        };
+        if !poisoned_at_abort {
+            // the drop happened at a point where nothing had been started: fine, nothing to assert
+            ctx.label("cancelled_without_poison");
+            return Ok(());
+        }
+        let writes: Vec<String> = writes_under_collection(&ctl.log(), mark);
+        if !writes.is_empty() {
+            return Err(format!(
+                "{:?} was cancelled in flight (handle poisoned) while {:?} was {}; afterwards the handle wrote {writes:?} (transition returned {:?}, state {:?})",
+                op,
+                case.transition,
+                if close_was_queued { "already queued" } else { "not yet started" },
+                tr_ret.lock().unwrap(),
+                col.state()
+            ));
+        }
+        if col.state() != CollectionState::Poisoned {
+            return Err(format!("after a cancelled {:?} and {:?} the handle state is {:?}, not Poisoned", op, case.transition, col.state()));
+        }
+        // cancel = crash: a reopen yields the pre- or the post-state with consistent indexes
+        let store: Arc<dyn ObjectStore> = Arc::new(CtlStore::new(mem.clone(), Ctl::new()));
+        let db2 = connect(store, false).await.map_err(|e| format!("reopen failed: {e}"))?;
+        let col2 = open(&db2, &idx).await.map_err(|e| format!("reopen failed: {e}"))?;
+        let mut rec = Model::new();
+        for id in col2.ids() {
+            rec.insert(id, doc_fields(&col2.get(id).await.map_err(|e| format!("document {id} unreadable after reopen: {e}"))?));
+        }
+        check_indexes(&col2, &rec, &idx, "reopened after the cancellation").await?;
+        for (id, d) in &pre {
+            let touched = crate::c05::doc_of(&op) == Some(*id);
+            if !touched && rec.get(id) != Some(d) {
+                return Err(format!("untouched document {id} changed across cancellation and reopen"));
+            }
+        }
+        ctx.nontrivial = close_was_queued;
+        if close_was_queued {
+            ctx.label("close_queued_when_op_was_cancelled");
+        }
+        ctx.label(format!("{:?}", case.transition));
+        Ok(())
+    })
+}
+
+fn cancel_vs_close_cases() -> Vec<RCase> {
+    let d = |name: u8, age: u8| DocSpec { name, age, score: 0, tags: vec![], opt: None, ukeys: vec![], attrs: vec![], body: vec![name % 5], emb: 0 };
+    let ops: Vec<COp> = vec![COp::Add(d(8, 1)), COp::Update { id: 0, spec: d(0, 4), mask: 0b10 }, COp::Remove { id: 1 }, COp::SaveExt { k: 0, v: 1 }];
+    let mut v = vec![];
+    for t in [Transition::CollectionClose, Transition::CloseCollection, Transition::DatabaseClose] {
+        for o in &ops {
+            v.push(RCase { transition: t, ops: vec![o.clone()], schedule: vec![] });
+        }
+    }
+    v
+}
+
 fn race_cases() -> Vec<RCase> {
     let d = |name: u8, age: u8| DocSpec { name, age, score: 0, tags: vec![], opt: None, ukeys: vec![], attrs: vec![], body: vec![name % 5], emb: 0 };
     let ops: Vec<COp> = vec![COp::Add(d(8, 1)), COp::Update { id: 0, spec: d(0, 4), mask: 0b10 }, COp::Remove { id: 1 }, COp::SaveExt { k: 0, v: 1 }, COp::Flush];
@@ -833,6 +995,45 @@ pub fn run(r: &mut Runner) {
                 }
                 Err((choices, e)) => Err(format!("{e} [choices {choices:?}]")),
             }
+        },
+    );
+    let cv_budget = r.tier.pick(4000usize, 100_000usize);
+    r.sub_enum(
+        "cancel_vs_queued_close_all_interleavings",
+        "3 close transitions (Collection::close, close_collection, AndaDB::close) x 4 operations (add, update, remove, save_extension): the operation's future is DROPPED at every decision point at which it is parked inside a backend call, for every release order, with the close not yet started, started, or already queued behind the operation. Oracle: once the cancellation has poisoned the handle nothing is written under the collection any more (a queued close must not flush the diverged state), the handle stays Poisoned, and a reopen yields consistent indexes with untouched documents unchanged. Non-trivial = the close was already queued when the operation was cancelled",
+        true,
+        cancel_vs_close_cases(),
+        move |case, ctx| {
+            let mut nontrivial = false;
+            let res = vf_core::sched::dfs(cv_budget, |ch| {
+                let mut c2 = CaseCtx::default();
+                let r = run_cancel_vs_queued_close(case, ch, &mut c2);
+                nontrivial |= c2.nontrivial;
+                r
+            });
+            ctx.nontrivial = nontrivial;
+            match res {
+                Ok((n, exhausted)) => {
+                    ctx.count("schedules", n as u64);
+                    ctx.count(if exhausted { "sets_fully_enumerated" } else { "sets_cut_by_budget" }, 1);
+                    Ok(())
+                }
+                Err((choices, e)) => Err(format!("{e} [choices {choices:?}]")),
+            }
+        },
+    );
+    r.sub(
+        "cancel_vs_queued_close_generated",
+        "the same 12 (close transition, operation) pairs under generated schedules (which also choose the decision point at which the operation's future is dropped); same oracle. Non-trivial = the close was already queued when the operation was cancelled",
+        (20_000, 600_000),
+        || (0usize..12, prop::collection::vec(any::<u16>(), 0..80)).prop_map(|(i, schedule)| {
+            let mut c = cancel_vs_close_cases()[i].clone();
+            c.schedule = schedule;
+            c
+        }),
+        |case, ctx| {
+            let mut ch = Chooser::from_random(case.schedule.clone());
+            run_cancel_vs_queued_close(case, &mut ch, ctx)
         },
     );
     let ro_budget = r.tier.pick(1500usize, 60_000usize);
